@@ -269,3 +269,36 @@ func Harness_skeletons() {
 	}
 	compare(prog)
 }
+
+// Program returns a symbolic program of the generator family (for other properties' harnesses).
+func Program(tag string, depth, width int) MalType {
+	g := &gen{width: width}
+	return g.expr(tag, depth, nil)
+}
+
+// Skeleton returns one of the skeleton families with symbolic holes.
+func Skeleton(tag string, holeDepth int) MalType {
+	g := &gen{width: 1}
+	hole := func(t string, scope ...string) MalType { return g.node(tag+"/"+t, holeDepth, scope) }
+	n := vrt.IntRange(tag+"/n", 0, 3)
+	switch vrt.Concrete(vrt.Choice(tag+"/family", 4)) {
+	case 0:
+		return lst(sym("do"),
+			lst(sym("def"), sym("g1"), lst(sym("fn"), vect(sym("x")),
+				lst(sym("if"), lst(sym("<"), sym("x"), 1), hole("h", "x"), lst(sym("g1"), lst(sym("-"), sym("x"), 1))))),
+			lst(sym("g1"), n))
+	case 1:
+		return lst(sym("do"),
+			lst(sym("def"), sym("g1"), lst(sym("fn"), vect(sym("x")), lst(sym("fn"), vect(sym("y")), lst(sym("trace!"), lst(sym("+"), sym("x"), sym("y")))))),
+			lst(sym("def"), sym("g2"), lst(sym("g1"), n)),
+			lst(sym("list"), lst(sym("g2"), 1), lst(lst(sym("g1"), hole("h")), 2)))
+	case 2:
+		return lst(sym("let"), vect(sym("x"), n),
+			lst(sym("let"), vect(sym("x"), lst(sym("+"), sym("x"), 1), sym("y"), sym("x")),
+				lst(lst(sym("fn"), vect(sym("x")), lst(sym("list"), sym("x"), sym("y"), hole("h", "x", "y"))), 7)),
+			sym("x"))
+	default:
+		return lst(lst(sym("trace!"), lst(sym("fn"), vect(sym("x"), sym("y")), lst(sym("trace!"), lst(sym("list"), sym("y"), sym("x"))))),
+			lst(sym("trace!"), n), lst(sym("trace!"), hole("h")))
+	}
+}
